@@ -201,33 +201,47 @@ def sumsMatch : List (List Int) → List Int → Bool
   | c :: cs, s :: ss => decide (isum c = s) && sumsMatch cs ss
   | _, _ => true
 
-/-- `normalize_chunks(chunks, shape, limit, previous_chunks=None)` for `shape ≠ ()`. -/
-def normalizeChunks (orc : List (Nat × Bool)) (limit : Option Int) (chunks : List Spec) (shape : List Int) :
-    Except Err (List (List Int)) :=
-  if shape = [] then .ok [] else
+/-- first stage of `normalize_chunks` (`shape ≠ ()`): all-zero-shape default, rank-1 clean-up of a missing
+outer tuple, rank check, `-1`/`None` ↦ axis length. -/
+def prepare (chunks : List Spec) (shape : List Int) : Except Err (List Spec) :=
   -- `if not chunks and shape and all(s == 0 for s in shape): chunks = ((0,),) * len(shape)`
   let chunks := if chunks = [] ∧ shape.all (· == 0) then List.replicate shape.length (Spec.tuple [0]) else chunks
-  -- rank-1 clean-up of a missing outer tuple
+  -- `len(shape) == 1 and len(chunks) > 1 and all(isinstance(c, (Number, str)) for c in chunks)`
   let wrap := decide (shape.length = 1) && decide (chunks.length > 1) && chunks.all isNumOrStr
   if wrap && chunks.any isStr then .error .valueError else
   let chunks := if wrap then [Spec.tuple (specInts chunks)] else chunks
   if chunks.length ≠ shape.length then .error .valueError else
-  let chunks := List.zipWith fillFull chunks shape
-  match checkBytes limit chunks with
+  .ok (List.zipWith fillFull chunks shape)
+
+/-- last stage: `_convert_int_chunk_to_tuple`, empty-tuple check, negative-size check, and the sum check
+unless `allints`. -/
+def finalize (chunks : List Spec) (shape : List Int) : Except Err (List (List Int)) :=
+  let allints := chunks.all isIntSpec
+  match convertAll chunks shape with
   | .error e => .error e
-  | .ok _ =>
-    let chunks := chunks.map bytesToAuto
-    match (if chunks.any isAuto then autoNoPrev orc chunks shape else .ok chunks) with
+  | .ok out =>
+    if out.any (· == []) then .error .valueError
+    else if out.any (fun c => c.any (· < 0)) then .error .valueError   -- "Chunk sizes must not be negative"
+    else if !allints && !sumsMatch out shape then .error .valueError
+    else .ok out
+
+/-- `if any(c == "auto" for c in chunks): chunks = auto_chunks(...)`. -/
+def resolveAuto (orc : List (Nat × Bool)) (chunks : List Spec) (shape : List Int) : Except Err (List Spec) :=
+  if chunks.any isAuto then autoNoPrev orc chunks shape else .ok chunks
+
+/-- `normalize_chunks(chunks, shape, limit, previous_chunks=None)` for `shape ≠ ()`. -/
+def normalizeChunks (orc : List (Nat × Bool)) (limit : Option Int) (chunks : List Spec) (shape : List Int) :
+    Except Err (List (List Int)) :=
+  if shape = [] then .ok [] else
+  match prepare chunks shape with
+  | .error e => .error e
+  | .ok chunks =>
+    match checkBytes limit chunks with
     | .error e => .error e
-    | .ok chunks =>
-      let allints := chunks.all isIntSpec
-      match convertAll chunks shape with
+    | .ok _ =>
+      match resolveAuto orc (chunks.map bytesToAuto) shape with
       | .error e => .error e
-      | .ok out =>
-        if out.any (· == []) then .error .valueError
-        else if out.any (fun c => c.any (· < 0)) then .error .valueError   -- "Chunk sizes must not be negative"
-        else if !allints && !sumsMatch out shape then .error .valueError
-        else .ok out
+      | .ok chunks => finalize chunks shape
 
 /-- per-axis view used by the theorems: what one axis of `normalize_chunks` returns for a non-auto
 spec, given the global `allints` flag (all axes are plain ints ⇒ the sum check is skipped). -/
